@@ -16,38 +16,38 @@ Local Open Scope string_scope.
 Definition expected_norm : list (string * string) := [
   ("struct encoder_t", "uint8_t* buf_p; ssize_t size; ssize_t pos");
   ("struct decoder_t", "const uint8_t* buf_p; ssize_t size; ssize_t pos");
-  ("encoder_init", "static void encoder_init(struct encoder_t* self_p, uint8_t* buf_p, size_t size) { self_p->buf_p = buf_p; self_p->size = (8 * ((ssize_t)size)); self_p->pos = 0; }");
-  ("encoder_get_result", "static ssize_t encoder_get_result(const struct encoder_t* self_p) { if (self_p->size >= 0) { return ((self_p->pos + 7) / 8); } else { return self_p->pos; } }");
-  ("encoder_abort", "static void encoder_abort(struct encoder_t* self_p, ssize_t error) { if (self_p->size >= 0) { self_p->size = (-error); self_p->pos = (-error); } }");
-  ("encoder_alloc", "static ssize_t encoder_alloc(struct encoder_t* self_p, size_t size) { ssize_t pos; if ((self_p->pos + ((ssize_t)size)) <= self_p->size) { pos = self_p->pos; self_p->pos += ((ssize_t)size); } else { pos = (-ENOMEM); encoder_abort(self_p, ENOMEM); } return pos; }");
-  ("encoder_append_bit", "static void encoder_append_bit(struct encoder_t* self_p, int value) { ssize_t pos; pos = encoder_alloc(self_p, 1); if (pos < 0) { return; } if ((pos % 8) == 0) { self_p->buf_p[(pos / 8)] = 0; } self_p->buf_p[(pos / 8)] |= ((uint8_t)(value << (7 - (pos % 8)))); }");
-  ("encoder_append_bytes", "static void encoder_append_bytes(struct encoder_t* self_p, const uint8_t* buf_p, size_t size) { size_t i; ssize_t pos; size_t byte_pos; size_t pos_in_byte; pos = encoder_alloc(self_p, (8u * size)); if (pos < 0) { return; } byte_pos = (((size_t)pos) / 8u); pos_in_byte = (((size_t)pos) % 8u); if (pos_in_byte == 0u) { ((void)memcpy((&self_p->buf_p[byte_pos]), buf_p, size)); } else { for (i = 0; (i < size); i++) { self_p->buf_p[(byte_pos + i)] |= (buf_p[i] >> pos_in_byte); self_p->buf_p[((byte_pos + i) + 1)] = (buf_p[i] << (8u - pos_in_byte)); } } }");
-  ("encoder_append_uint8", "static void encoder_append_uint8(struct encoder_t* self_p, uint8_t value) { uint8_t buf[1]; buf[0] = ((uint8_t)value); encoder_append_bytes(self_p, (&buf[0]), sizeof(buf)); }");
-  ("encoder_append_uint16", "static void encoder_append_uint16(struct encoder_t* self_p, uint16_t value) { uint8_t buf[2]; buf[0] = ((uint8_t)(value >> 8)); buf[1] = ((uint8_t)value); encoder_append_bytes(self_p, (&buf[0]), sizeof(buf)); }");
-  ("encoder_append_uint32", "static void encoder_append_uint32(struct encoder_t* self_p, uint32_t value) { uint8_t buf[4]; buf[0] = ((uint8_t)(value >> 24)); buf[1] = ((uint8_t)(value >> 16)); buf[2] = ((uint8_t)(value >> 8)); buf[3] = ((uint8_t)value); encoder_append_bytes(self_p, (&buf[0]), sizeof(buf)); }");
-  ("encoder_append_uint64", "static void encoder_append_uint64(struct encoder_t* self_p, uint64_t value) { uint8_t buf[8]; buf[0] = ((uint8_t)(value >> 56)); buf[1] = ((uint8_t)(value >> 48)); buf[2] = ((uint8_t)(value >> 40)); buf[3] = ((uint8_t)(value >> 32)); buf[4] = ((uint8_t)(value >> 24)); buf[5] = ((uint8_t)(value >> 16)); buf[6] = ((uint8_t)(value >> 8)); buf[7] = ((uint8_t)value); encoder_append_bytes(self_p, (&buf[0]), sizeof(buf)); }");
-  ("encoder_append_int8", "static void encoder_append_int8(struct encoder_t* self_p, int8_t value) { encoder_append_uint8(self_p, (((uint8_t)value) + 128)); }");
-  ("encoder_append_int16", "static void encoder_append_int16(struct encoder_t* self_p, int16_t value) { encoder_append_uint16(self_p, (((uint16_t)value) + 32768)); }");
-  ("encoder_append_int32", "static void encoder_append_int32(struct encoder_t* self_p, int32_t value) { encoder_append_uint32(self_p, (((uint32_t)value) + 2147483648)); }");
-  ("encoder_append_int64", "static void encoder_append_int64(struct encoder_t* self_p, int64_t value) { uint64_t u64_value; u64_value = ((uint64_t)value); u64_value += 9223372036854775808ull; encoder_append_uint64(self_p, u64_value); }");
-  ("encoder_append_bool", "static void encoder_append_bool(struct encoder_t* self_p, bool value) { encoder_append_bit(self_p, (value ? 1 : 0)); }");
-  ("encoder_append_non_negative_binary_integer", "static void encoder_append_non_negative_binary_integer(struct encoder_t* self_p, uint64_t value, size_t size) { size_t i; for (i = 0; (i < size); i++) { encoder_append_bit(self_p, ((value >> ((size - i) - 1)) & 1)); } }");
-  ("decoder_init", "static void decoder_init(struct decoder_t* self_p, const uint8_t* buf_p, size_t size) { self_p->buf_p = buf_p; self_p->size = (8 * ((ssize_t)size)); self_p->pos = 0; }");
-  ("decoder_get_result", "static ssize_t decoder_get_result(const struct decoder_t* self_p) { if (self_p->size >= 0) { return ((self_p->pos + 7) / 8); } else { return self_p->pos; } }");
-  ("decoder_abort", "static void decoder_abort(struct decoder_t* self_p, ssize_t error) { if (self_p->size >= 0) { self_p->size = (-error); self_p->pos = (-error); } }");
-  ("decoder_free", "static ssize_t decoder_free(struct decoder_t* self_p, size_t size) { ssize_t pos; if ((self_p->pos + ((ssize_t)size)) <= self_p->size) { pos = self_p->pos; self_p->pos += ((ssize_t)size); } else { pos = (-EOUTOFDATA); decoder_abort(self_p, EOUTOFDATA); } return pos; }");
-  ("decoder_read_bit", "static int decoder_read_bit(struct decoder_t* self_p) { ssize_t pos; int value; pos = decoder_free(self_p, 1); if (pos >= 0) { value = ((self_p->buf_p[(pos / 8)] >> (7 - (pos % 8))) & 1); } else { value = 0; } return value; }");
-  ("decoder_read_bytes", "static void decoder_read_bytes(struct decoder_t* self_p, uint8_t* buf_p, size_t size) { size_t i; ssize_t pos; size_t byte_pos; size_t pos_in_byte; pos = decoder_free(self_p, (8u * size)); if (pos < 0) { return; } byte_pos = (((size_t)pos) / 8u); pos_in_byte = (((size_t)pos) % 8u); if (pos_in_byte == 0) { ((void)memcpy(buf_p, (&self_p->buf_p[byte_pos]), size)); } else { for (i = 0; (i < size); i++) { buf_p[i] = (self_p->buf_p[(byte_pos + i)] << pos_in_byte); buf_p[i] |= (self_p->buf_p[((byte_pos + i) + 1)] >> (8u - pos_in_byte)); } } }");
-  ("decoder_read_uint8", "static uint8_t decoder_read_uint8(struct decoder_t* self_p) { uint8_t value = 0; decoder_read_bytes(self_p, (&value), sizeof(value)); return value; }");
-  ("decoder_read_uint16", "static uint16_t decoder_read_uint16(struct decoder_t* self_p) { uint8_t buf[2]; decoder_read_bytes(self_p, (&buf[0]), sizeof(buf)); return ((((uint16_t)buf[0]) << 8) | ((uint16_t)buf[1])); }");
-  ("decoder_read_uint32", "static uint32_t decoder_read_uint32(struct decoder_t* self_p) { uint8_t buf[4]; decoder_read_bytes(self_p, (&buf[0]), sizeof(buf)); return ((((((uint32_t)buf[0]) << 24) | (((uint32_t)buf[1]) << 16)) | (((uint32_t)buf[2]) << 8)) | ((uint32_t)buf[3])); }");
-  ("decoder_read_uint64", "static uint64_t decoder_read_uint64(struct decoder_t* self_p) { uint8_t buf[8]; decoder_read_bytes(self_p, (&buf[0]), sizeof(buf)); return ((((((((((uint64_t)buf[0]) << 56) | (((uint64_t)buf[1]) << 48)) | (((uint64_t)buf[2]) << 40)) | (((uint64_t)buf[3]) << 32)) | (((uint64_t)buf[4]) << 24)) | (((uint64_t)buf[5]) << 16)) | (((uint64_t)buf[6]) << 8)) | ((uint64_t)buf[7])); }");
-  ("decoder_read_int8", "static int8_t decoder_read_int8(struct decoder_t* self_p) { int8_t value; value = ((int8_t)decoder_read_uint8(self_p)); value -= 128; return value; }");
-  ("decoder_read_int16", "static int16_t decoder_read_int16(struct decoder_t* self_p) { int16_t value; value = ((int16_t)decoder_read_uint16(self_p)); value -= 32768; return value; }");
-  ("decoder_read_int32", "static int32_t decoder_read_int32(struct decoder_t* self_p) { int32_t value; value = ((int32_t)decoder_read_uint32(self_p)); value -= 2147483648; return value; }");
-  ("decoder_read_int64", "static int64_t decoder_read_int64(struct decoder_t* self_p) { uint64_t value; value = decoder_read_uint64(self_p); value -= 9223372036854775808ull; return ((int64_t)value); }");
-  ("decoder_read_bool", "static bool decoder_read_bool(struct decoder_t* self_p) { return (decoder_read_bit(self_p) != 0); }");
-  ("decoder_read_non_negative_binary_integer", "static uint64_t decoder_read_non_negative_binary_integer(struct decoder_t* self_p, size_t size) { size_t i; uint64_t value; value = 0; for (i = 0; (i < size); i++) { value <<= 1; value |= ((uint64_t)decoder_read_bit(self_p)); } return value; }")
+  ("encoder_init", "static void encoder_init(struct encoder_t* p0, uint8_t* p1, size_t p2) { p0->buf_p = p1; p0->size = (8 * ((ssize_t)p2)); p0->pos = 0; }");
+  ("encoder_get_result", "static ssize_t encoder_get_result(const struct encoder_t* p0) { if (p0->size >= 0) { return ((p0->pos + 7) / 8); } else { return p0->pos; } }");
+  ("encoder_abort", "static void encoder_abort(struct encoder_t* p0, ssize_t p1) { if (p0->size >= 0) { p0->size = (-p1); p0->pos = (-p1); } }");
+  ("encoder_alloc", "static ssize_t encoder_alloc(struct encoder_t* p0, size_t p1) { ssize_t l0; if ((p0->pos + ((ssize_t)p1)) <= p0->size) { l0 = p0->pos; p0->pos += ((ssize_t)p1); } else { l0 = (-ENOMEM); encoder_abort(p0, ENOMEM); } return l0; }");
+  ("encoder_append_bit", "static void encoder_append_bit(struct encoder_t* p0, int p1) { ssize_t l0; l0 = encoder_alloc(p0, 1); if (l0 < 0) { return; } if ((l0 % 8) == 0) { p0->buf_p[(l0 / 8)] = 0; } p0->buf_p[(l0 / 8)] |= ((uint8_t)(p1 << (7 - (l0 % 8)))); }");
+  ("encoder_append_bytes", "static void encoder_append_bytes(struct encoder_t* p0, const uint8_t* p1, size_t p2) { size_t l0; ssize_t l1; size_t l2; size_t l3; l1 = encoder_alloc(p0, (8u * p2)); if (l1 < 0) { return; } l2 = (((size_t)l1) / 8u); l3 = (((size_t)l1) % 8u); if (l3 == 0u) { ((void)memcpy((&p0->buf_p[l2]), p1, p2)); } else { for (l0 = 0; (l0 < p2); l0++) { p0->buf_p[(l2 + l0)] |= (p1[l0] >> l3); p0->buf_p[((l2 + l0) + 1)] = (p1[l0] << (8u - l3)); } } }");
+  ("encoder_append_uint8", "static void encoder_append_uint8(struct encoder_t* p0, uint8_t p1) { uint8_t l0[1]; l0[0] = ((uint8_t)p1); encoder_append_bytes(p0, (&l0[0]), sizeof(l0)); }");
+  ("encoder_append_uint16", "static void encoder_append_uint16(struct encoder_t* p0, uint16_t p1) { uint8_t l0[2]; l0[0] = ((uint8_t)(p1 >> 8)); l0[1] = ((uint8_t)p1); encoder_append_bytes(p0, (&l0[0]), sizeof(l0)); }");
+  ("encoder_append_uint32", "static void encoder_append_uint32(struct encoder_t* p0, uint32_t p1) { uint8_t l0[4]; l0[0] = ((uint8_t)(p1 >> 24)); l0[1] = ((uint8_t)(p1 >> 16)); l0[2] = ((uint8_t)(p1 >> 8)); l0[3] = ((uint8_t)p1); encoder_append_bytes(p0, (&l0[0]), sizeof(l0)); }");
+  ("encoder_append_uint64", "static void encoder_append_uint64(struct encoder_t* p0, uint64_t p1) { uint8_t l0[8]; l0[0] = ((uint8_t)(p1 >> 56)); l0[1] = ((uint8_t)(p1 >> 48)); l0[2] = ((uint8_t)(p1 >> 40)); l0[3] = ((uint8_t)(p1 >> 32)); l0[4] = ((uint8_t)(p1 >> 24)); l0[5] = ((uint8_t)(p1 >> 16)); l0[6] = ((uint8_t)(p1 >> 8)); l0[7] = ((uint8_t)p1); encoder_append_bytes(p0, (&l0[0]), sizeof(l0)); }");
+  ("encoder_append_int8", "static void encoder_append_int8(struct encoder_t* p0, int8_t p1) { encoder_append_uint8(p0, (((uint8_t)p1) + 128)); }");
+  ("encoder_append_int16", "static void encoder_append_int16(struct encoder_t* p0, int16_t p1) { encoder_append_uint16(p0, (((uint16_t)p1) + 32768)); }");
+  ("encoder_append_int32", "static void encoder_append_int32(struct encoder_t* p0, int32_t p1) { encoder_append_uint32(p0, (((uint32_t)p1) + 2147483648)); }");
+  ("encoder_append_int64", "static void encoder_append_int64(struct encoder_t* p0, int64_t p1) { uint64_t l0; l0 = ((uint64_t)p1); l0 += 9223372036854775808ull; encoder_append_uint64(p0, l0); }");
+  ("encoder_append_bool", "static void encoder_append_bool(struct encoder_t* p0, bool p1) { encoder_append_bit(p0, (p1 ? 1 : 0)); }");
+  ("encoder_append_non_negative_binary_integer", "static void encoder_append_non_negative_binary_integer(struct encoder_t* p0, uint64_t p1, size_t p2) { size_t l0; for (l0 = 0; (l0 < p2); l0++) { encoder_append_bit(p0, ((p1 >> ((p2 - l0) - 1)) & 1)); } }");
+  ("decoder_init", "static void decoder_init(struct decoder_t* p0, const uint8_t* p1, size_t p2) { p0->buf_p = p1; p0->size = (8 * ((ssize_t)p2)); p0->pos = 0; }");
+  ("decoder_get_result", "static ssize_t decoder_get_result(const struct decoder_t* p0) { if (p0->size >= 0) { return ((p0->pos + 7) / 8); } else { return p0->pos; } }");
+  ("decoder_abort", "static void decoder_abort(struct decoder_t* p0, ssize_t p1) { if (p0->size >= 0) { p0->size = (-p1); p0->pos = (-p1); } }");
+  ("decoder_free", "static ssize_t decoder_free(struct decoder_t* p0, size_t p1) { ssize_t l0; if ((p0->pos + ((ssize_t)p1)) <= p0->size) { l0 = p0->pos; p0->pos += ((ssize_t)p1); } else { l0 = (-EOUTOFDATA); decoder_abort(p0, EOUTOFDATA); } return l0; }");
+  ("decoder_read_bit", "static int decoder_read_bit(struct decoder_t* p0) { ssize_t l0; int l1; l0 = decoder_free(p0, 1); if (l0 >= 0) { l1 = ((p0->buf_p[(l0 / 8)] >> (7 - (l0 % 8))) & 1); } else { l1 = 0; } return l1; }");
+  ("decoder_read_bytes", "static void decoder_read_bytes(struct decoder_t* p0, uint8_t* p1, size_t p2) { size_t l0; ssize_t l1; size_t l2; size_t l3; l1 = decoder_free(p0, (8u * p2)); if (l1 < 0) { return; } l2 = (((size_t)l1) / 8u); l3 = (((size_t)l1) % 8u); if (l3 == 0) { ((void)memcpy(p1, (&p0->buf_p[l2]), p2)); } else { for (l0 = 0; (l0 < p2); l0++) { p1[l0] = (p0->buf_p[(l2 + l0)] << l3); p1[l0] |= (p0->buf_p[((l2 + l0) + 1)] >> (8u - l3)); } } }");
+  ("decoder_read_uint8", "static uint8_t decoder_read_uint8(struct decoder_t* p0) { uint8_t l0 = 0; decoder_read_bytes(p0, (&l0), sizeof(l0)); return l0; }");
+  ("decoder_read_uint16", "static uint16_t decoder_read_uint16(struct decoder_t* p0) { uint8_t l0[2]; decoder_read_bytes(p0, (&l0[0]), sizeof(l0)); return ((((uint16_t)l0[0]) << 8) | ((uint16_t)l0[1])); }");
+  ("decoder_read_uint32", "static uint32_t decoder_read_uint32(struct decoder_t* p0) { uint8_t l0[4]; decoder_read_bytes(p0, (&l0[0]), sizeof(l0)); return ((((((uint32_t)l0[0]) << 24) | (((uint32_t)l0[1]) << 16)) | (((uint32_t)l0[2]) << 8)) | ((uint32_t)l0[3])); }");
+  ("decoder_read_uint64", "static uint64_t decoder_read_uint64(struct decoder_t* p0) { uint8_t l0[8]; decoder_read_bytes(p0, (&l0[0]), sizeof(l0)); return ((((((((((uint64_t)l0[0]) << 56) | (((uint64_t)l0[1]) << 48)) | (((uint64_t)l0[2]) << 40)) | (((uint64_t)l0[3]) << 32)) | (((uint64_t)l0[4]) << 24)) | (((uint64_t)l0[5]) << 16)) | (((uint64_t)l0[6]) << 8)) | ((uint64_t)l0[7])); }");
+  ("decoder_read_int8", "static int8_t decoder_read_int8(struct decoder_t* p0) { int8_t l0; l0 = ((int8_t)decoder_read_uint8(p0)); l0 -= 128; return l0; }");
+  ("decoder_read_int16", "static int16_t decoder_read_int16(struct decoder_t* p0) { int16_t l0; l0 = ((int16_t)decoder_read_uint16(p0)); l0 -= 32768; return l0; }");
+  ("decoder_read_int32", "static int32_t decoder_read_int32(struct decoder_t* p0) { int32_t l0; l0 = ((int32_t)decoder_read_uint32(p0)); l0 -= 2147483648; return l0; }");
+  ("decoder_read_int64", "static int64_t decoder_read_int64(struct decoder_t* p0) { uint64_t l0; l0 = decoder_read_uint64(p0); l0 -= 9223372036854775808ull; return ((int64_t)l0); }");
+  ("decoder_read_bool", "static bool decoder_read_bool(struct decoder_t* p0) { return (decoder_read_bit(p0) != 0); }");
+  ("decoder_read_non_negative_binary_integer", "static uint64_t decoder_read_non_negative_binary_integer(struct decoder_t* p0, size_t p1) { size_t l0; uint64_t l1; l1 = 0; for (l0 = 0; (l0 < p1); l0++) { l1 <<= 1; l1 |= ((uint64_t)decoder_read_bit(p0)); } return l1; }")
 ].
 
 Theorem helper_text_is_the_modelled_one : helper_norm = expected_norm.
